@@ -79,7 +79,9 @@ def generate(rng, tier):
         yield D.case_c(s)
     for _ in range(nf):
         yield D.case_c(D.mutate(rng, rng.choice(texts)))
-    for t in _derivations(rng, ne, 0.05):
+    for t in _derivations(rng, 3 * ne, 0.05):
+        if t[0] not in ("ser", "par") and rng.random() < 0.9:
+            continue
         s = "".join(D.tree_tokens(t))
         rel = rng.choice(["ws", "brackets", "assoc", "assoc", "swap", "swap", "neg"])
         if rel == "ws":
